@@ -13,6 +13,7 @@ import (
 
 	"github.com/go-logr/logr"
 	"github.com/klauspost/compress/s2"
+	"github.com/pckhoi/meow"
 	"github.com/wrgl/wrgl/pkg/encoding/packfile"
 	"github.com/wrgl/wrgl/pkg/ingest"
 	"github.com/wrgl/wrgl/pkg/objects"
@@ -85,14 +86,18 @@ func (r *ObjectReceiver) saveTable(b []byte) (sum []byte, err error) {
 	if err != nil {
 		return
 	}
-	sum, err = objects.SaveTable(r.db, b)
-	if err != nil {
-		return
-	}
+	// index and profile first: the table object is what marks the table as
+	// present, so it must be written last
+	arr := meow.Checksum(0, b)
+	sum = arr[:]
 	if err = ingest.IndexTable(r.db, sum, tbl, r.logger.V(1)); err != nil {
-		return
+		return nil, err
 	}
 	if err = ingest.ProfileTable(r.db, sum, tbl); err != nil {
+		return nil, err
+	}
+	sum, err = objects.SaveTable(r.db, b)
+	if err != nil {
 		return
 	}
 	if r.saveObjHook != nil {
